@@ -603,3 +603,106 @@ Proof.
   - apply forallb_forall. intros ob Hin. apply in_map_iff in Hin as [rows [<- _]]. cbn [fst snd].
     now rewrite all_equal_repeat.
 Qed.
+
+(* ------------------------------------------------------------------------------------------ *)
+(** * 10. onEntries at column level *)
+
+Lemma count_str_cons : forall x f fs, count_str x (f :: fs) = ((if String.eqb x f then 1 else 0) + count_str x fs)%nat.
+Proof. intros x f fs. unfold count_str. cbn [filter]. destruct (String.eqb x f); reflexivity. Qed.
+
+Lemma fold_bump_by_fields : forall fs k m,
+  fold_left (fun m f => bump_by f k m) fs m
+  = map (fun kv => (fst kv, (snd kv + N.of_nat (k * count_str (fst kv) fs))%N)) m.
+Proof.
+  induction fs as [|f fs IH]; intros k m; cbn [fold_left].
+  - rewrite <- (map_id m) at 1. apply map_ext. intros [x v]. cbn [fst snd]. unfold count_str. cbn. rewrite Nat.mul_0_r. cbn. now rewrite N.add_0_r.
+  - rewrite IH. unfold bump_by. rewrite map_map. apply map_ext. intros [x v]. cbn [fst snd].
+    rewrite count_str_cons. destruct (String.eqb x f); cbn [fst snd]; f_equal;
+      rewrite ?Nat.mul_add_distr_l, ?Nat.mul_1_r, ?Nat.mul_0_r, ?Nat2N.inj_add; cbn [Nat.add]; lia.
+Qed.
+
+Lemma src_len_consistent : forall e s, ent_consistent e = true -> src_len e s = en_ts e.
+Proof.
+  intros e s H. unfold ent_consistent in H. apply andb_true_iff in H as [H H3]. apply andb_true_iff in H as [H1 H2].
+  apply Nat.eqb_eq in H1, H2, H3. destruct s; cbn [src_len]; congruence.
+Qed.
+
+Lemma fold_spl_consistent : forall e ops m, ent_consistent e = true ->
+  fold_left (fun m o => bump_by (lop_field o) (src_len e (lop_src o)) m) ops m
+  = fold_left (fun m f => bump_by f (en_ts e) m) (map lop_field ops) m.
+Proof.
+  intros e ops. induction ops as [|o ops IH]; intros m H; cbn [fold_left map]; [reflexivity|].
+  rewrite (src_len_consistent e _ H). apply IH. exact H.
+Qed.
+
+Lemma bump_fields_const : forall fs fields k n,
+  forallb (fun f => Nat.eqb (count_str f fs) 1) fields = true ->
+  fold_left (fun m f => bump_by f k m) fs (const_cols fields n) = const_cols fields (n + N.of_nat k).
+Proof.
+  intros fs fields k n H. rewrite fold_bump_by_fields. unfold const_cols. rewrite map_map. apply map_ext_in.
+  intros f Hin. cbn [fst snd]. rewrite forallb_forall in H. specialize (H f Hin). apply Nat.eqb_eq in H.
+  now rewrite H, Nat.mul_1_r.
+Qed.
+
+Section ENTRIES.
+  Variables (p : entries_prog) (sf tf cs ct : list string).
+  Hypothesis Hok : entries_ok p sf tf cs ct = true.
+
+  Let ok_parts : ep_flush_resets p = true
+    /\ forallb (fun f => Nat.eqb (count_str f (map lop_field (ep_spl p))) 1) sf = true
+    /\ forallb (fun f => Nat.eqb (count_str f (ep_ts p)) 1) tf = true.
+  Proof. unfold entries_ok in Hok. repeat (apply andb_true_iff in Hok as [Hok ?]). tauto. Qed.
+
+  Definition lbatch_inv (b : lbatch) : Prop := exists n k, lb_spl b = const_cols sf n /\ lb_ts b = const_cols tf k.
+
+  Lemma lbatch_inv_rect : forall b, lbatch_inv b -> lbatch_rect b = true.
+  Proof. intros b [n [k [Hs Ht]]]. unfold lbatch_rect. now rewrite Hs, Ht, !rectangular_const. Qed.
+
+  Lemma lbatch0_inv : lbatch_inv (lbatch0 sf tf).
+  Proof. exists 0%N, 0%N. split; reflexivity. Qed.
+
+  Lemma on_entries_cols_inv : forall b e b' sent, lbatch_inv b -> ent_consistent e = true ->
+    on_entries_cols p sf tf b e = LOk b' sent -> lbatch_inv b' /\ Forall (fun x => lbatch_rect x = true) sent.
+  Proof.
+    destruct ok_parts as [Hf [Hs Ht]].
+    intros b e b' sent [n [k [Hb1 Hb2]]] Hc H. unfold on_entries_cols in H. cbv zeta in H.
+    destruct (en_lbl_short e); [discriminate|].
+    destruct (en_bad_type e || Nat.ltb (en_msg e) (en_ts e)); [discriminate|].
+    rewrite (fold_spl_consistent e _ _ Hc), Hb1, Hb2, (bump_fields_const _ _ _ _ Hs), (bump_fields_const _ _ _ _ Ht) in H.
+    match type of H with context [(MiB <? lb_size ?x)%N] => set (b3 := x) in H end.
+    assert (Hb3 : lbatch_inv b3) by (eexists; eexists; split; reflexivity).
+    destruct (MiB <? lb_size b3)%N; inversion H; subst; clear H.
+    - rewrite Hf. split; [exact lbatch0_inv|]. constructor; [apply lbatch_inv_rect; exact Hb3|constructor].
+    - split; [exact Hb3|constructor].
+  Qed.
+
+  Lemma sent_lbatches_rect : forall evs b, lbatch_inv b -> events_consistent evs = true ->
+    Forall (fun x => lbatch_rect x = true) (sent_lbatches p sf tf b evs).
+  Proof.
+    induction evs as [|ev evs IH]; intros b Hb Hc; cbn [sent_lbatches].
+    - constructor; [apply lbatch_inv_rect; exact Hb|constructor].
+    - cbn [events_consistent forallb] in Hc. apply andb_true_iff in Hc as [Hc1 Hc2].
+      destruct ev as [e| |t]; [|constructor|constructor].
+      destruct (on_entries_cols p sf tf b e) as [b' sent|] eqn:E; [|constructor].
+      destruct (on_entries_cols_inv _ _ _ _ Hb Hc1 E) as [Hb' Hsent].
+      apply Forall_app. split; [exact Hsent|apply IH; [exact Hb'|exact Hc2]].
+  Qed.
+End ENTRIES.
+
+Lemma on_entries_cols_model_ok :
+  entries_ok on_entries_cols_model spl_fields_model tsd_fields_model spl_fields_model tsd_fields_model = true.
+Proof. vm_compute. reflexivity. Qed.
+
+(* without the decoders' side of the contract the claim is false: one message more than timestamps passes the
+   index checks and tears the samples request *)
+Definition unequal_event : ent_ev :=
+  {| en_lbl_short := false; en_ts := 1; en_msg := 2; en_val := 1; en_types := 1; en_bad_type := false; en_series := 1; en_bytes := 50 |}.
+Lemma unequal_lengths_tear_the_batch :
+  forallb lbatch_rect (sent_lbatches on_entries_cols_model spl_fields_model tsd_fields_model
+                         (lbatch0 spl_fields_model tsd_fields_model) [LcEntries unequal_event]) = false.
+Proof. vm_compute. reflexivity. Qed.
+(* fewer messages than timestamps: message[i] panics after the appends; nothing of it is sent *)
+Lemma short_messages_panic_sends_nothing :
+  sent_lbatches on_entries_cols_model spl_fields_model tsd_fields_model (lbatch0 spl_fields_model tsd_fields_model)
+    [LcEntries {| en_lbl_short := false; en_ts := 2; en_msg := 1; en_val := 2; en_types := 2; en_bad_type := false; en_series := 1; en_bytes := 50 |}] = [].
+Proof. vm_compute. reflexivity. Qed.
